@@ -4,6 +4,11 @@ import json, os
 V = os.path.dirname(os.path.dirname(os.path.abspath(__file__)))
 
 CLAIMED = {
+ "C13": dict(
+   category="proof", design_ref="DESIGN.md §5 C13",
+   text="Lean theorems C13.events_exact (for every history of watch / per-document mutation / read / close / pump-exit steps and every watcher: delivered events are a prefix of, and delivered ++ queued equals, the accepted matching mutations between its Watch and Close, in order — exactly once, nothing lost before close), C13.writer_never_blocks / C13.pump_receptive_after_park / C13.pump_fifo (the pump goroutine's program-counter machine), C13.close_isolated. The model is tied to pkg/store/stream.go and store.go's Watch/emit by differential execution of a real store with up to 4 watchers against the model, plus a stalled-consumer run.",
+   note="Filter matching and acceptance by the segment are parameters of the model (C10/C12's subject; the harness evaluates three watcher filter shapes itself). Go channel/select semantics of the pump are modelled (atomic rendezvous steps), 'promptly' is observed with timeouts, not proved. Trusted: Lean kernel, correspondence harness.",
+   technique="Lean 4 proof (invariant by induction over operation histories; small-step pump machine) + model/implementation differential correspondence"),
  "C17": dict(
    category="proof", design_ref="DESIGN.md §5 C17",
    text="Lean theorem C17.group_pure: for every coherent decoder list, every warm-up history and every source, DecoderGroup.Decode's result equals the cold result (unbounded histories, kernel-checked). The model is tied to pkg/encoding/group.go by differential execution of the real DecoderGroup against the model on random decoder tables; the Coherent hypothesis for the real registry is checked by a cold/warm/concurrent oracle on the real codec.",
